@@ -104,6 +104,10 @@ var userAgents = []struct {
 }{
 	{"skycoin:0.27.0", true}, {"skycoin:0.25.1(some remark)", true}, {"other-coin_x:1.2.3-rc1", true},
 	{"", false}, {"skycoin", false}, {"skycoin:abc", false}, {"sky coin:1.0.0", false}, {strings.Repeat("a", 300) + ":1.0.0", false},
+	// the field holds at most 256 bytes on the wire: exactly 256 well-formed bytes, one more, and 300 bytes of which
+	// only 250 survive the removal of forbidden characters (what remains would be well-formed)
+	{"skycoin:1.0.0(" + strings.Repeat("a", 241) + ")", true}, {"skycoin:1.0.0(" + strings.Repeat("a", 242) + ")", false},
+	{"skycoin:0.26.0(" + strings.Repeat("a", 234) + strings.Repeat("<", 50) + ")", false},
 }
 
 // drawIntro generates an introduction and decides, from the bytes alone and
@@ -156,7 +160,7 @@ func (s *peerSim) drawIntro(forceValid bool) introSpec {
 	}
 	ua := userAgents[0]
 	if !forceValid {
-		ua = userAgents[t.Pick("intro-ua", 6, 2, 2, 1, 1, 1, 1, 1)]
+		ua = userAgents[t.Pick("intro-ua", 6, 2, 2, 1, 1, 1, 1, 1, 1, 1, 2)]
 	}
 	if !ua.valid {
 		fail("user agent")
@@ -254,15 +258,46 @@ func (s *peerSim) repliesSince(p *chaosPeer, from int) []string {
 // ---- C25 ------------------------------------------------------------------------
 
 func runIntroGate(c *sim.Ctx) {
-	s := newPeerSim(c, 1+c.T.Int("gate-blocks", 3))
-	defer s.close()
 	t := c.T
+	blocks := 1 + t.Int("gate-blocks", 3)
+	// in half of the runs two of the peer addresses are the network's configured default (trusted) peers, and the
+	// node also opens connections itself: the rules for what a connection may say before it has introduced itself
+	// do not depend on who opened it or on how much the other side is trusted
+	var defaults []string
+	if t.Bool("gate-default-peers") {
+		defaults = []string{fmt.Sprintf("%s:%d", peerIPs[0], peerPorts[0]), fmt.Sprintf("%s:%d", peerIPs[1], peerPorts[1])}
+	}
+	s := newPeerSimOpts(c, blocks, func(ns *netSim) { ns.defaultConns = defaults })
+	defer s.close()
 	steps := t.Range("gate-steps", 6, 40)
 	c.Sample = append(c.Sample, fmt.Sprintf("one node, scripted peers, %d events", steps))
 	for c.Step = 1; c.Step <= steps && !c.Failed(); c.Step++ {
 		live := s.livePeers()
 		if len(live) == 0 || t.Chance("new-peer", 1, 4) {
-			s.connectIn(s.pickAddr())
+			addr := s.pickAddr()
+			if len(defaults) > 0 && t.Bool("gate-pick-default") {
+				addr = defaults[t.Int("gate-default-i", len(defaults))]
+			}
+			if t.Chance("gate-outgoing", 1, 3) {
+				// the node dials the address itself
+				busy := false
+				for _, q := range live {
+					busy = busy || q.addr == addr
+				}
+				if !busy && s.n.dm.VerifPending(addr) == nil {
+					l, err := s.ns.attach(s.n, addr, true)
+					cp := &chaosPeer{name: "out@" + addr, addr: addr, l: l}
+					l.chaos = cp
+					s.ns.pump()
+					c.Logf("outgoing connection to %s established -> %v", addr, err)
+					if err == nil {
+						s.peers = append(s.peers, cp)
+						c.Count("probe.outgoing_connection_in_gate_run")
+					}
+				}
+				continue
+			}
+			s.connectIn(addr)
 			continue
 		}
 		if t.Chance("gate-time-passes", 1, 5) {
